@@ -9,8 +9,8 @@ class KDRandomApply(KDRandomApplyBase):
         self.transform = transform
 
     def set_rng(self, rng):
-        if isinstance(transform, (KDStochasticTransform, KDComposeTransform)):
-            transform.set_rng(rng)
+        if isinstance(self.transform, (KDStochasticTransform, KDComposeTransform)):
+            self.transform.set_rng(rng)
         return super().set_rng(rng)
 
     def forward(self, x, ctx):
